@@ -5,7 +5,7 @@
    lists and ALL fault oracles.  The OS itself is an oracle: crash points are the model's primitive-call
    boundaries (atomicity of rename/write under power loss is not claimed). *)
 From Coq Require Import List Ascii String Bool Arith Lia.
-Require Import GS U20 U20b U20c.
+Require Import GS U20 U20b U20c U20d.
 Import ListNotations.
 
 Section C20.
@@ -73,9 +73,32 @@ Section C20.
   Theorem C20_non_plain_names_refused : forall op h dest x, forallb plain (h_listed h) = false ->
     transfer op h dest x = (x, false).
   Proof. exact C20_traversal_refused. Qed.
+
+  (* removal touches nothing but listed plain names and the control file, in the handle's own directory, and leaves
+     every other directory as it was; when it succeeds none of those files is left *)
+  Theorem C20_confined_remove : forall h x x' ok, do_remove fault h x = (x', ok) ->
+    exists ext, log x' = log x ++ ext /\
+      forall ev, In ev ext -> exists n, (n = h_file h \/ In n (h_listed h) /\ plain n = true) /\ ev = EvRemove (h_dir h, n).
+  Proof. exact (C20_remove_confined fault). Qed.
+  Theorem C20_remove_leaves_other_directories : forall h x x' ok e', do_remove fault h x = (x', ok) -> fst e' <> h_dir h ->
+    fs_get e' (fs x') = fs_get e' (fs x).
+  Proof. exact (C20_remove_frame fault). Qed.
+  Theorem C20_successful_remove : forall h x x', ~ In (h_file h) (h_listed h) -> do_remove fault h x = (x', true) ->
+    forall n, In n (h_file h :: h_listed h) -> fs_get (h_dir h, n) (fs x') = None.
+  Proof. exact (C20_remove_success fault). Qed.
+
+  (* HISTORIES: the handle points at the new location after a successful copy or move (after h dest true), so a
+     removal through the same handle deletes the copies in the destination and leaves every original in place *)
+  Theorem C20_copy_then_remove_through_one_handle : forall h dest x x1 x2, h_dir h <> dest -> NoDup (h_listed h) -> ~ In (h_file h) (h_listed h) ->
+    do_copy fault h dest x = (x1, true) -> do_remove fault (after h dest true) x1 = (x2, true) ->
+    forall n, In n (h_file h :: h_listed h) ->
+      fs_get (dest, n) (fs x2) = None /\ fs_get (h_dir h, n) (fs x2) = fs_get (h_dir h, n) (fs x) /\ fs_get (h_dir h, n) (fs x) <> None.
+  Proof. exact (C20_copy_then_remove fault). Qed.
 End C20.
 Print Assumptions C20_control_file_last_copy.
 Print Assumptions C20_failed_copy_leaves_no_control_file.
 Print Assumptions C20_successful_copy_is_identical.
 Print Assumptions C20_remove_control_file_last.
 Print Assumptions C20_confined_copy.
+Print Assumptions C20_confined_remove.
+Print Assumptions C20_copy_then_remove_through_one_handle.
